@@ -117,7 +117,7 @@ OtherType(t) == CASE t = "int8" -> "bool" [] t = "bool" -> "int8" [] t = "int16"
                   [] t = "int64" -> "float64" [] t = "float64" -> "int64" [] t = "*int" -> "int64" [] t = "string" -> "any"
                   [] t = "any" -> "string" [] t = "int32" -> "int16" [] t = "[]byte" -> "string" [] t = "[3]int8" -> "int8"
                   [] t = "struct{}" -> "[0]int64" [] t = "[0]int64" -> "struct{}" [] t = "float32" -> "int32"
-                  [] t = "complex128" -> "string" [] OTHER -> "int8"
+                  [] t = "complex128" -> "string" [] t = "fmt.Stringer" -> "any" [] OTHER -> "int8"
 \* a type that is *not* the entry's: same size where the palette has one; E <-> *E for embedded structs
 Mismatch(sh, x) == LET f == FieldAt(sh, x.pos) IN
   IF f.emb = "ptr" THEN f.ty ELSE IF f.emb = "val" THEN "*" \o f.ty ELSE OtherType(f.ty)
